@@ -254,7 +254,7 @@ def expected : Field → NumClass → Outcome
   | .insulationRadius, .pos => .report
   | .insulationRadius, .inf => .diag
   | .insulationRadius, .nan => .diag
-  | .insulationEps, .neg => .report
+  | .insulationEps, .neg => .diag
   | .insulationEps, .zero => .diag
   | .insulationEps, .pos => .report
   | .insulationEps, .inf => .diag
